@@ -9,6 +9,7 @@ from ..cfg import CFG, dominators
 from ..kinds import has_call, reach
 from ..model import AnalysisError, chain, unparse
 from ..report import RuleResult
+from ..roles import canon, writer_roles
 from ..textile import FormatDoc
 
 # documented type section -> implementing class (irregular names only; the rest is matched by normalised name)
@@ -69,7 +70,8 @@ def rule_spec(ctx) -> RuleResult:
         res.find("H5Writer", "init_geoh5", f"type containers {sorted(got_t)} differ from the documented {sorted(want_t)}", ig.where, "types cannot be filed by kind")
     we = W.methods["write_entity"]
     root_links = [a for a in ast.walk(we.node) if isinstance(a, ast.Assign) and isinstance(a.targets[0], ast.Subscript) and unparse(a.targets[0].slice) == "'Root'"]
-    ok = bool(root_links) and all(unparse(a.value) == "entity_handle" for a in root_links)
+    we_roles = writer_roles(we.node)
+    ok = bool(root_links) and all(canon(a.value, we_roles) == "entity_handle" for a in root_links)
     res.inst("write_entity: project['Root'] = entity_handle (hard link to the root group's node)", ok=ok)
     if not ok:
         res.find("H5Writer", "write_entity", "Root link missing or not the root group's node", we.where, "the mandatory Root link is absent or points elsewhere")
@@ -160,52 +162,56 @@ def rule_link(ctx) -> RuleResult:
     W = p.cls("H5Writer")
     wmod = W.module
     for name, fn in W.methods.items():
+        roles = writer_roles(fn.node)
+        cu = lambda n, roles=roles: canon(n, roles)  # noqa: E731  (locals are compared by role, not by spelling)
         defs: dict[str, list] = {}
         for n in ast.walk(fn.node):
             if isinstance(n, ast.Assign) and len(n.targets) == 1 and isinstance(n.targets[0], ast.Name):
-                defs.setdefault(n.targets[0].id, []).append(n.value)
+                defs.setdefault(roles.get(n.targets[0].id, n.targets[0].id), []).append(n.value)
         for a in ast.walk(fn.node):
             if not (isinstance(a, ast.Assign) and len(a.targets) == 1 and isinstance(a.targets[0], ast.Subscript)):
                 continue
             t = a.targets[0]
             key = t.slice
             val = a.value
-            srcs = defs.get(val.id, []) if isinstance(val, ast.Name) else [val]
+            srcs = defs.get(roles.get(val.id, val.id), []) if isinstance(val, ast.Name) else [val]
             where = f"{fn.module.relpath}:{a.lineno}"
             if isinstance(key, ast.Constant) and key.value == "Type":
-                ok = bool(srcs) and all(isinstance(s, ast.Call) and unparse(s.func).endswith("write_entity_type") for s in srcs)
-                res.inst(f"H5Writer.{name}:{a.lineno} {unparse(t)[:30]} = {unparse(val)} from {[unparse(s)[:40] for s in srcs]}", nontrivial=True, ok=ok)
+                ok = bool(srcs) and all(isinstance(s, ast.Call) and cu(s.func).endswith("write_entity_type") for s in srcs)
+                res.inst(f"H5Writer.{name}:{a.lineno} {cu(t)[:30]} = {cu(val)} from {[cu(s)[:40] for s in srcs]}", nontrivial=True, ok=ok)
                 if not ok:
-                    res.find("H5Writer", name, f"Type link assigned from {unparse(val)[:40]}", where,
+                    res.find("H5Writer", name, f"Type link assigned from {cu(val)[:40]}", where,
                              "the Type entry is not the node write_entity_type returned: the entity's type is a copy or another node, not the shared type under Types")
             elif isinstance(key, ast.Constant) and key.value == "Root":
                 continue  # C02.SPEC
-            elif isinstance(val, (ast.Name,)) and any(isinstance(s, ast.Call) and unparse(s.func).endswith("write_entity") for s in srcs) or "parent_handle" in unparse(t.value):
-                ok = bool(srcs) and all(isinstance(s, ast.Call) and unparse(s.func).endswith("write_entity") and len(s.args) >= 2 and unparse(s.args[1]) == "entity" for s in srcs)
-                uid_ok = unparse(key) in ("as_str_if_uuid(uid)", "as_str_if_uuid(entity.uid)") and (
-                    unparse(key) != "as_str_if_uuid(uid)" or any(unparse(d) == "entity.uid" for d in defs.get("uid", []))
+            elif isinstance(val, (ast.Name,)) and any(isinstance(s, ast.Call) and cu(s.func).endswith("write_entity") for s in srcs) or "parent_handle" in cu(t.value):
+                ok = bool(srcs) and all(isinstance(s, ast.Call) and cu(s.func).endswith("write_entity") and len(s.args) >= 2 and cu(s.args[1]) == "entity" for s in srcs)
+                uid_ok = cu(key) in ("as_str_if_uuid(uid)", "as_str_if_uuid(entity.uid)") and (
+                    cu(key) != "as_str_if_uuid(uid)" or any(cu(d) == "entity.uid" for d in defs.get("uid", []))
                 )
-                res.inst(f"H5Writer.{name}:{a.lineno} child link {unparse(t)[:40]} = {unparse(val)}", nontrivial=True, ok=ok and uid_ok)
+                res.inst(f"H5Writer.{name}:{a.lineno} child link {cu(t)[:40]} = {cu(val)}", nontrivial=True, ok=ok and uid_ok)
                 if not ok:
-                    res.find("H5Writer", name, f"child link assigned from {unparse(val)[:40]}", where,
+                    res.find("H5Writer", name, f"child link assigned from {cu(val)[:40]}", where,
                              "the parent's entry is not the child's node in the flat container (a copy, or another entity's node)")
                 if not uid_ok:
-                    res.find("H5Writer", name, f"child link stored under key {unparse(key)[:40]}", where, "the link name is not the child's own identifier")
+                    res.find("H5Writer", name, f"child link stored under key {cu(key)[:40]}", where, "the link name is not the child's own identifier")
     # uid-named groups are created only in the flat containers, the type containers and PropertyGroups
     n_links = 0
     for name, fn in W.methods.items():
+        roles = writer_roles(fn.node)
+        cu = lambda n, roles=roles: canon(n, roles)  # noqa: E731
         for c in ast.walk(fn.node):
-            if isinstance(c, ast.Call) and isinstance(c.func, ast.Attribute) and c.func.attr == "create_group" and c.args and "as_str_if_uuid" in unparse(c.args[0]) or (
-                isinstance(c, ast.Call) and isinstance(c.func, ast.Attribute) and c.func.attr == "create_group" and c.args and unparse(c.args[0]) in ("uid", "uid_str")
+            if isinstance(c, ast.Call) and isinstance(c.func, ast.Attribute) and c.func.attr == "create_group" and c.args and "as_str_if_uuid" in cu(c.args[0]) or (
+                isinstance(c, ast.Call) and isinstance(c.func, ast.Attribute) and c.func.attr == "create_group" and c.args and cu(c.args[0]) in ("uid", "uid_str")
             ):
-                base = unparse(c.func.value)
-                ok = base in ("h5file[base][entity_type]", "h5file[base]['Types'][entity_type_str]", "entity_handle['PropertyGroups']")
+                base = cu(c.func.value)
+                ok = base in ("h5file[base][entity_type]", "h5file[base]['Types'][entity_type_str]", "entity_handle['PropertyGroups']", "parent_handle['PropertyGroups']")
                 res.inst(f"H5Writer.{name}:{c.lineno} uid-named group created in {base}", ok=ok)
                 if not ok:
                     res.find("H5Writer", name, f"uid-named group created in {base[:40]}", f"{fn.module.relpath}:{c.lineno}",
                              "an entity node is created outside the flat containers: the hierarchy entry is a separate (empty) group, not a hard link")
         for a in ast.walk(fn.node):
-            if isinstance(a, ast.Assign) and isinstance(a.targets[0], ast.Subscript) and "parent_handle" in unparse(a.targets[0].value):
+            if isinstance(a, ast.Assign) and isinstance(a.targets[0], ast.Subscript) and "parent_handle" in cu(a.targets[0].value):
                 n_links += 1
     ok = n_links >= 1
     res.inst(f"writer contains {n_links} parent->child hard-link store(s)", ok=ok)
@@ -214,28 +220,32 @@ def rule_link(ctx) -> RuleResult:
                  "children are never linked under their parent: the tree cannot be traversed from Root")
     # write_entity_type / write_entity return values
     wt = W.methods["write_entity_type"]
+    roles = writer_roles(wt.node)
+    cu = lambda n, roles=roles: canon(n, roles)  # noqa: E731
     defs = {}
     for n in ast.walk(wt.node):
         if isinstance(n, ast.Assign) and isinstance(n.targets[0], ast.Name):
-            defs.setdefault(n.targets[0].id, []).append(n.value)
-    for r in [x for x in ast.walk(wt.node) if isinstance(x, ast.Return) and x.value is not None and unparse(x.value) != "None"]:
-        srcs = defs.get(r.value.id, []) if isinstance(r.value, ast.Name) else [r.value]
-        ok = all("['Types'][entity_type_str]" in unparse(s) and "as_str_if_uuid(uid)" in unparse(s) for s in srcs) and any(unparse(d) == "entity_type.uid" for d in defs.get("uid", []))
-        res.inst(f"write_entity_type:{r.lineno} returns {[unparse(s)[:60] for s in srcs]}", nontrivial=True, ok=ok)
+            defs.setdefault(roles.get(n.targets[0].id, n.targets[0].id), []).append(n.value)
+    for r in [x for x in ast.walk(wt.node) if isinstance(x, ast.Return) and x.value is not None and cu(x.value) != "None"]:
+        srcs = defs.get(roles.get(r.value.id, r.value.id), []) if isinstance(r.value, ast.Name) else [r.value]
+        ok = all("['Types'][entity_type_str]" in cu(s) and "as_str_if_uuid(uid)" in cu(s) for s in srcs) and any(cu(d) == "entity_type.uid" for d in defs.get("uid", []))
+        res.inst(f"write_entity_type:{r.lineno} returns {[cu(s)[:60] for s in srcs]}", nontrivial=True, ok=ok)
         if not ok:
-            res.find("H5Writer", "write_entity_type", f"returns {unparse(r.value)[:40]}", f"{wt.module.relpath}:{r.lineno}",
+            res.find("H5Writer", "write_entity_type", f"returns {cu(r.value)[:40]}", f"{wt.module.relpath}:{r.lineno}",
                      "the returned node is not <project>/Types/<kind>/<type uid>: entities link to a wrong or private type node")
     wen = W.methods["write_entity"]
+    roles = writer_roles(wen.node)
+    cu = lambda n, roles=roles: canon(n, roles)  # noqa: E731
     defs = {}
     for n in ast.walk(wen.node):
         if isinstance(n, ast.Assign) and isinstance(n.targets[0], ast.Name):
-            defs.setdefault(n.targets[0].id, []).append(n.value)
+            defs.setdefault(roles.get(n.targets[0].id, n.targets[0].id), []).append(n.value)
     for r in [x for x in ast.walk(wen.node) if isinstance(x, ast.Return) and x.value is not None]:
-        srcs = defs.get(r.value.id, []) if isinstance(r.value, ast.Name) else [r.value]
-        ok = all("h5file[base][entity_type]" in unparse(s) and "as_str_if_uuid(uid)" in unparse(s) for s in srcs) and any(unparse(d) == "entity.uid" for d in defs.get("uid", []))
-        res.inst(f"write_entity:{r.lineno} returns {[unparse(s)[:60] for s in srcs]}", nontrivial=True, ok=ok)
+        srcs = defs.get(roles.get(r.value.id, r.value.id), []) if isinstance(r.value, ast.Name) else [r.value]
+        ok = all("h5file[base][entity_type]" in cu(s) and "as_str_if_uuid(uid)" in cu(s) for s in srcs) and any(cu(d) == "entity.uid" for d in defs.get("uid", []))
+        res.inst(f"write_entity:{r.lineno} returns {[cu(s)[:60] for s in srcs]}", nontrivial=True, ok=ok)
         if not ok:
-            res.find("H5Writer", "write_entity", f"returns {unparse(r.value)[:40]}", f"{wen.module.relpath}:{r.lineno}",
+            res.find("H5Writer", "write_entity", f"returns {cu(r.value)[:40]}", f"{wen.module.relpath}:{r.lineno}",
                      "the returned node is not <project>/<flat container>/<entity uid>")
     # no soft / external links, no node copies, no group named Type
     for fn in p.all_functions():
@@ -273,15 +283,18 @@ def rule_reparent(ctx) -> RuleResult:
     store = [n for n in g.nodes if n.kind == "stmt" and isinstance(n.ast, ast.Assign) and unparse(n.ast.targets[0]) == "self._parent"]
     if not store:
         raise AnalysisError("Entity.parent setter: store of self._parent not found")
-    # the change test: current_parent is not None and current_parent != self._parent
-    tests = [n for n in g.nodes if n.kind == "test" and "current_parent" in unparse(n.ast) and "!=" in unparse(n.ast)]
+    # the change test: <old parent> is not None and <old parent> != self._parent; the old parent is the local bound from self._parent / self.parent
+    from ..roles import bound_from
+    olds = {nm: "current_parent" for nm in bound_from(st.node, lambda e: unparse(e) in ("self._parent", "self.parent", "getattr(self, '_parent', None)"))}
+    cu = lambda n: canon(n, olds)  # noqa: E731
+    tests = [n for n in g.nodes if n.kind == "test" and "current_parent" in cu(n.ast) and ("!=" in cu(n.ast) or "is not self._parent" in cu(n.ast))]
     ok = bool(tests)
     res.inst("parent setter: tests `current_parent is not None and current_parent != self._parent`", ok=ok)
     if not ok:
         res.find("Entity", "parent", "no test for an actual change of parent", st.where, "the old parent is never (or always) unlinked")
     allowed = {"current_parent is not None", "current_parent != self._parent", "hasattr(current_parent, 'remove_children')", "current_parent is not self._parent"}
     for t in tests:
-        conj = {unparse(v) for v in t.ast.values} if isinstance(t.ast, ast.BoolOp) and isinstance(t.ast.op, ast.And) else {unparse(t.ast)}
+        conj = {cu(v) for v in t.ast.values} if isinstance(t.ast, ast.BoolOp) and isinstance(t.ast.op, ast.And) else {cu(t.ast)}
         extra = sorted(conj - allowed)
         res.inst(f"parent setter: the unlink of the old parent is conditioned only on an actual change of parent (extra conditions: {extra})", nontrivial=True, ok=not extra)
         if extra:
@@ -314,7 +327,8 @@ def rule_reparent(ctx) -> RuleResult:
     if not ok4:
         res.find("Workspace", "remove_children", "no H5Writer.remove_child call", wr.where, "the old parent's link stays on file")
     rc = p.func("H5Writer.remove_child")
-    ok5 = any(isinstance(d, ast.Delete) and "parent_handle[ref_type][uid_str]" in unparse(d) for d in ast.walk(rc.node))
+    rc_roles = writer_roles(rc.node)
+    ok5 = any(isinstance(d, ast.Delete) and "parent_handle[ref_type][uid_str]" in canon(d, rc_roles) for d in ast.walk(rc.node))
     res.inst("H5Writer.remove_child deletes parent_handle[ref_type][uid_str]", ok=ok5)
     if not ok5:
         res.find("H5Writer", "remove_child", "does not delete the parent's link", rc.where, "the old parent's link stays on file")
